@@ -19,7 +19,27 @@ let c17 op args =
      | None -> Some "err")
   | _ -> None
 
-let run op args =
-  match c17 op args with
-  | Some r -> Some r
-  | None -> None
+(* ---- lexer ---- *)
+let typ_code = function
+  | TError -> 0 | TEOF -> 1 | THTML -> 2 | TKeyword -> 3 | TIdentifier -> 4
+  | TString -> 5 | TNumber -> 6 | TSymbol -> 7 | TNil -> 8
+
+let show_token t =
+  Printf.sprintf "%d,%s,%d,%d,%d" (typ_code t.ttyp) (hex_of_str t.tval) (int_of_z t.tline)
+    (int_of_z t.tcol) (if t.ttrim then 1 else 0)
+
+let show_lex = function
+  | LexOk toks -> "ok:" ^ String.concat ";" (List.map show_token toks)
+  | LexFail (LexErr (l, c, _)) -> Printf.sprintf "err:%d,%d" (int_of_z l) (int_of_z c)
+  | LexFuel -> "fuel"
+
+let lexer op args =
+  match op with
+  | "lex" -> Some (show_lex (lex (arg args 0)))
+  | "lexshift" -> Some (show_lex (lex (arg args 0 @ arg args 1)))
+  | _ -> None
+
+let first_some fs op args =
+  List.fold_left (fun acc f -> match acc with Some _ -> acc | None -> f op args) None fs
+
+let run op args = first_some [c17; lexer] op args
